@@ -196,8 +196,17 @@ func VerifC14_Matrix() {
 	if clientUnc == serverUnc {
 		vAssert(err == nil && has, "HEAD does not find the chunk")
 	}
-	// upload through the server into the upstream store and read it back directly
+	// upload through the server into the upstream store and read it back directly; the chunk is
+	// fresh, or was read from a local store of either format (it then carries that store's
+	// storage bytes, which must not be sent as they are to a store of the other format)
 	data2, c2 := mk("chunk2", []byte{0x62}, 0x78)
+	if src := vChoose("upload-source", 3); src > 0 {
+		from, _ := NewLocalStore(vTempDir(), StoreOptions{Uncompressed: src == 2, SkipVerify: symbolic})
+		vAssert(from.StoreChunk(c2) == nil, "source store")
+		var gerr error
+		c2, gerr = from.GetChunk(c2.ID())
+		vAssert(gerr == nil, "source store read")
+	}
 	if clientUnc == serverUnc {
 		vAssert(s.StoreChunk(c2) == nil, "upload failed")
 		back, err := up.GetChunk(c2.ID())
